@@ -78,6 +78,9 @@ type GenesisParams struct {
 	Funds                int64 // initial balance of every cast member
 	StartHeight          int64
 	PoorFunds            int64 // when > 0: the initial uakt balance of cast member PX
+	// RestartCheck: the scenario changes chain parameters; the params store is part of the state identity and the determinism
+	// check re-executes every transaction on a freshly started application instance holding the same stores
+	RestartCheck bool
 }
 
 func (g GenesisParams) String() string {
@@ -236,7 +239,11 @@ func (w *World) Exec(st State, msg sdk.Msg) (res TxResult) { return w.ExecGas(st
 // ExecGas is Exec with a caller-supplied gas meter (nil = the context's infinite meter). Running out of gas panics inside
 // the store access, is recovered like any panic and discards the branch — exactly what BaseApp.runTx does.
 func (w *World) ExecGas(st State, msg sdk.Msg, meter sdk.GasMeter) (res TxResult) {
-	h := w.App.MsgServiceRouter().Handler(fq(msg))
+	return execOn(w.App, st, msg, meter)
+}
+
+func execOn(a *app.AkashApp, st State, msg sdk.Msg, meter sdk.GasMeter) (res TxResult) {
+	h := a.MsgServiceRouter().Handler(fq(msg))
 	if h == nil {
 		panic("no handler for " + fq(msg))
 	}
@@ -332,6 +339,9 @@ func (w *World) dumpStores(st State, names []string) []KV {
 func (w *World) Dump(st State) *Dump {
 	d := &Dump{Height: st.Height}
 	d.KVs = w.dumpStores(st, akashStores)
+	if w.GP.RestartCheck {
+		d.KVs = append(d.KVs, w.dumpStores(st, []string{"params"})...)
+	}
 	// bank: balances (prefix 0x02) and supply (0x00)
 	s := st.Ctx.KVStore(w.keys["bank"])
 	it := s.Iterator(nil, nil)
@@ -407,4 +417,24 @@ func (d *Dump) HashNoHeight() [32]byte {
 	var out [32]byte
 	copy(out[:], h.Sum(nil))
 	return out
+}
+
+// Restarted returns a freshly constructed application instance (nothing initialised, no genesis run: exactly what a node has
+// in memory after a restart) whose stores hold the contents of st, and the corresponding state.
+func (w *World) Restarted(st State) (*World, State) {
+	a := app.NewApp(log.NewNopLogger(), dbm.NewMemDB(), nil, true, 0, map[int64]bool{}, app.DefaultHome, simapp.EmptyAppOptions{})
+	w2 := &World{App: a, Cast: w.Cast, GP: w.GP, keys: map[string]sdk.StoreKey{}, others: w.others, Escrow: w.Escrow, slot: w.slot}
+	w2.root = a.NewUncachedContext(false, tmproto.Header{Height: st.Height, ChainID: "verif"})
+	for n, k1 := range w.keys {
+		k2 := a.GetKey(n)
+		w2.keys[n] = k2
+		src, dst := st.Ctx.KVStore(k1), w2.root.KVStore(k2)
+		it := src.Iterator(nil, nil)
+		for ; it.Valid(); it.Next() {
+			dst.Set(append([]byte{}, it.Key()...), append([]byte{}, it.Value()...))
+		}
+		it.Close()
+	}
+	c, _ := w2.root.CacheContext()
+	return w2, State{Ctx: c.WithBlockHeight(st.Height), Height: st.Height}
 }
